@@ -7,7 +7,7 @@ import math
 import numpy as np
 
 from ..model import EPS, LArr, Snap, DSnap, as_float, compare_larr, isnan, ndiv, nsub
-from .common import MAX_CELLS, additive_exact, exc_text, first_diff, has_inf, lens, regime, sum_tolerance, unique_items
+from .common import judgeable_dtype, MAX_CELLS, additive_exact, exc_text, first_diff, has_inf, lens, regime, sum_tolerance, unique_items
 
 M = "reduce-by-label"
 
@@ -39,7 +39,7 @@ def register(hub, prop="C07"):
         xs = call.pre[0]
         if not isinstance(xs, Snap) or not xs.ok or not unique_items(xs):
             return None
-        if xs.values.size > MAX_CELLS or xs.values.dtype.kind not in "fiu":
+        if xs.values.size > MAX_CELLS or not judgeable_dtype(xs.values):
             rec.skip(M, "too large or non-real dtype")
             return None
         X = LArr.from_snap(xs)
